@@ -417,6 +417,13 @@ func c02RangeBuffer(c *core.Ctx) {
 	before := int(putReturned.Load())
 	var visited, idxs []int
 	commitEarly := false
+	// the callback itself puts more values during some of its runs (incl. the run for the value that was last when
+	// it started): they are available when Range reaches the end of the buffer, so they must be visited too
+	extraRuns := 0
+	if !concurrent {
+		extraRuns = c.Rng.IntN(4)
+	}
+	extraPut := 0
 	rctx, rcancel := context.WithCancel(context.Background())
 	defer rcancel()
 	var rerr error
@@ -429,6 +436,14 @@ func c02RangeBuffer(c *core.Ctx) {
 			_, _, committed := b.VerifSnapshot()
 			if len(committed) == 1 && committed[0] > v {
 				commitEarly = true
+			}
+			if d, ok := b.Diff(cons); extraPut < extraRuns && ok && d == 0 {
+				// this is the last value at the moment: put another one while its callback is running
+				b.Put(context.Background(), next)
+				next++
+				extraPut++
+				putReturned.Add(1)
+				putCalled.Add(1)
 			}
 			return true
 		})
@@ -465,8 +480,8 @@ func c02RangeBuffer(c *core.Ctx) {
 	if len(visited) > after-pre {
 		c.Violate("buffer-range-overrun", "Buffer.Range visited %d values but only %d had been put when it returned; %s", len(visited), after-pre, desc)
 	}
-	if !concurrent && len(visited) != n-pre {
-		c.Violate("buffer-range-exact", "quiescent Buffer.Range visited %d values, want exactly %d; %s", len(visited), n-pre, desc)
+	if !concurrent && len(visited) != n-pre+extraPut {
+		c.Violate("buffer-range-exact", "Buffer.Range visited %d values, want exactly %d (%d available at the call + %d put by the callback while the last value was being visited); %s", len(visited), n-pre+extraPut, n-pre, extraPut, desc)
 	}
 	// everything visited is committed: the next read is the next value (if any)
 	if d, ok := b.Diff(cons); !ok || d != int(putReturned.Load())-pre-len(visited) {
@@ -480,7 +495,7 @@ func c02RangeBuffer(c *core.Ctx) {
 	if len(visited) > 0 {
 		c.Nontrivial()
 	}
-	c.Sig(n, pre, concurrent, len(visited))
+	c.Sig(n, pre, concurrent, len(visited), extraPut)
 	if c.Index < 1 {
 		c.SetHistory(desc)
 	}
